@@ -263,8 +263,8 @@ def _bad_tb(nports, w):
 
 @harness("C17", args="k1: int, k2: int, k3: int, coef: int, k0: int, style: int, depth: int, named: bool, multi: int",
          pre=[f"0 <= k1 < {NK}", f"-1 <= k2 < {NK}", f"-1 <= k3 < {NK}", "-5 <= coef <= 40", "0 <= k0 <= 11", "0 <= style <= 2", "0 <= depth <= 2", "0 <= multi <= 2"],
-         tiers={"quick": {"timeout": 170, "pre": ["k3 == -1", "coef == 7 or coef == -3", "depth <= 1", "multi == 0 or k2 == -1", "k0 % 5 == 1 or k1 == 11 or k1 == 4"],
-                          "parts": parts_product(parts_over("style", range(3)), [("lo", "k1 < 6"), ("mid", "6 <= k1 < 12"), ("hi", "k1 >= 12")])},
+         tiers={"quick": {"timeout": 170, "pre": ["k3 == -1", "coef == 7 or coef == -3", "depth <= 1", "multi == 0 or k2 == -1", "k0 == 1 or k0 == 6 or ((k1 == 11 or k1 == 4) and k0 <= 5)", "k2 in (-1, 0, 2, 5, 8, 11, 13, 14)"],
+                          "parts": parts_product(parts_over("style", range(3)), [("g%d" % g, "%d <= k1 < %d" % (3 * g, 3 * g + 3)) for g in range(6)])},
                 "thorough": {"timeout": 1500, "pre": ["coef % 9 == 7 or coef == -3", "multi == 0 or k3 == -1"],
                              "parts": parts_product(parts_over("style", range(3)), parts_over("k1", range(NK)))}},
          sample=(5, 11, -1, 7, 3, 1, 1, True, 1),
